@@ -48,9 +48,9 @@ def run(ctx, lookup, precached=False, bare_fails=False, ranked_only=False):
     repo = ctx.repo
     multi = A.multimap(repo)
     miss = multi.methods["__missing__"]
-    from .c10 import _wrap_site
+    from .c10 import resolution_entry
 
-    res, _, _ = _wrap_site(ctx)
+    res = resolution_entry(ctx)
     codes = {n: Code(name=n) for n in ("A", "B", "C", "X")}
     H0, H1 = Record(kind="entry of the bare key"), Record(kind="continuation after A")
     ERR_B, ERR0 = Record(kind="error", what="ambiguity below B"), Record(kind="error", what="ambiguity at the top")
